@@ -134,8 +134,8 @@ class TextualDataType(BaseDataType):
                 (encoding_chars['SUBCOMPONENT'], '{esc}T{esc}'.format(esc=escape_char)),
                 (encoding_chars['REPETITION'], '{esc}R{esc}'.format(esc=escape_char)),)
 
-    def _get_escape_char_regex(self, escape_char):
-        return r'(?<!%s[HNFSTRE])%s(?![HNFSTRE]%s)' % tuple(3 * [re.escape(escape_char)])
+    def _get_escape_sequence_regex(self, escape_char):
+        return r'%s[HNFSTRE]%s' % tuple(2 * [re.escape(escape_char)])
 
     def _escape_value(self, value, encoding_chars=None):
         escape_char = encoding_chars['ESCAPE']
@@ -168,17 +168,19 @@ class TextualDataType(BaseDataType):
                 offset += 2
             value = ''.join(words)
 
-        # Escapes encoding_chars
-        for char, esc_seq in translations:
-            value = value.replace(char, esc_seq)
-        # Escapes the escape_char. If it is found in other escape sequences it is not escaped.
-        # For example if the escape char is / and we find /H/ the escape chars are not re-escaped,
+        # Escapes the encoding chars and the escape char. Escape sequences already found in the value are not
+        # escaped again. For example if the escape char is / and we find /H/ the escape chars are not re-escaped,
         # otherwise it would become /E/H/E/ which is not the result wanted.
-        # Thus the regex search for escape chars not followed and not preceeded by one of the litteral
-        # composing an escape sequence. We use lambda because otherwise the backslash sequence in the string
+        # The value is scanned only once, from left to right: replacing the encoding chars first and looking for
+        # lone escape chars afterwards would mistake the escape chars just inserted for the ones of the value
+        # (e.g. |E/ would become /F/E/ instead of /F/E/E/).
+        # We use lambda because otherwise the backslash sequence in the string
         # is processed (look for re.sub in python doc) and we don't want this
-        value = re.sub(self._get_escape_char_regex(escape_char),
-                       lambda x: '{esc}E{esc}'.format(esc=escape_char), value)
+        replacements = dict(translations)
+        replacements[escape_char] = '{esc}E{esc}'.format(esc=escape_char)
+        regex = '(%s)|%s' % (self._get_escape_sequence_regex(escape_char),
+                             '|'.join(re.escape(char) for char in replacements))
+        value = re.sub(regex, lambda x: x.group(1) or replacements[x.group(0)], value)
 
         return value
 
